@@ -1893,3 +1893,102 @@ Qed.
 Corollary pq_reorder_sets_check elems F res :
   incl (concat F) elems -> pq_reorder elems F = Ok res -> sets_check F res = true.
 Proof. intros H1 H2. apply sets_check_correct. now apply (pq_reorder_sound elems). Qed.
+
+(* ------------------------------------------------------------------------------------------------ *)
+(* the only error is ValueError: the fuel is never exhausted and no attribute error can occur *)
+Lemma mapM_err {X Y} (g : X -> result Y) l e : mapM g l = Err e -> exists x, In x l /\ g x = Err e.
+Proof.
+  induction l as [|x t IH]; simpl; [discriminate|]. destruct (g x) as [y|e'] eqn:E; simpl.
+  - destruct (mapM g t) as [ys|e''] eqn:E2; simpl; [discriminate|]. intros H. inversion H; subst.
+    destruct (IH eq_refl) as (x0 & Hx0 & Hg). exists x0. split; [now right|exact Hg].
+  - intros H. inversion H; subst. exists x. split; [now left|exact E].
+Qed.
+
+Lemma q_scan_err v l acc sn sre e : q_scan v l acc sn sre = Err e -> e = ValueErr.
+Proof.
+  revert acc sn sre. induction l as [|[c st] t IH]; intros acc sn sre H; simpl in H; [discriminate|].
+  destruct st.
+  - destruct sre; [now inversion H|eauto].
+  - eauto.
+  - destruct sre; [now inversion H|]. destruct sn; eauto.
+  - now inversion H.
+Qed.
+
+Lemma p_cases_err v cs seq e : p_cases v cs seq = Err e -> e = ValueErr.
+Proof.
+  unfold p_cases. destruct (impossible _ _ _ _); [intros H; now inversion H|].
+  repeat (match goal with |- context [if ?b then _ else _] => destruct b end; try discriminate).
+Qed.
+
+Lemma q_cases_err v cs seq e : q_cases v cs seq = Err e -> e = ValueErr.
+Proof.
+  unfold q_cases. cbv zeta. destruct (impossible _ _ _ _); [intros H; now inversion H|].
+  repeat (match goal with |- context [if ?b then _ else _] => destruct b end; try discriminate);
+    (destruct (q_scan _ _ _ _ _) as [[a b]|e'] eqn:E; [discriminate|]; intros H; inversion H; subst;
+     now apply q_scan_err in E).
+Qed.
+
+Lemma set_contiguous_fuel : forall f v t e,
+  proper t = true -> length (ordering t) <= f -> set_contiguous f v t = Err e -> e = ValueErr.
+Proof.
+  induction f as [|f IH]; intros v t e Hp Hlen Hres.
+  - destruct t as [s|k cs]; [rewrite set_contiguous_leaf in Hres; discriminate|].
+    exfalso. apply proper_leaves in Hp. destruct (ordering (Node k cs)); [congruence|simpl in Hlen; lia].
+  - destruct t as [s|k cs]; [rewrite set_contiguous_leaf in Hres; discriminate|].
+    rewrite set_contiguous_node in Hres. apply proper_node_iff in Hp. destruct Hp as [Hn Hpc].
+    (* every child has fewer leaves than the node *)
+    assert (Hchild : forall c, In c cs -> length (ordering c) <= f).
+    { intros c Hc. simpl in Hlen. clear - Hn Hpc Hlen Hc.
+      assert (Hsum : forall l : list pq, Forall (fun c => proper c = true) l -> length l <= length (flat_map ordering l)).
+      { induction 1 as [|x l Hx Hl IHl]; simpl; [lia|]. rewrite app_length. apply proper_leaves in Hx.
+        destruct (ordering x); [congruence|simpl; lia]. }
+      apply in_split in Hc. destruct Hc as (l1 & l2 & ->). rewrite flat_map_app in Hlen. simpl in Hlen.
+      rewrite !app_length in Hlen. apply Forall_app in Hpc. destruct Hpc as [Hp1 Hp2]. inversion Hp2; subst.
+      pose proof (Hsum l1 Hp1). pose proof (Hsum l2 H2). rewrite app_length in Hn. simpl in Hn. lia. }
+    destruct (mapM (fun c => rmap fst (set_contiguous f v c)) cs) as [cs1|e1] eqn:E1.
+    + simpl rbind in Hres. pose proof (mapM_ok _ _ _ E1) as F1.
+      assert (Hlen1 : length cs1 = length cs) by (symmetry; exact (Forall2_len' _ _ _ F1)).
+      assert (Ecs2 : match cs1 with [c] => [flat_inplace c] | _ => map flat_ret cs1 end = map flat_ret cs1).
+      { destruct cs1 as [|a [|b r]]; try reflexivity. simpl in Hlen1. lia. }
+      cbv zeta in Hres. rewrite Ecs2 in Hres.
+      destruct (mapM (set_contiguous f v) (map flat_ret cs1)) as [res|e2] eqn:E2.
+      * simpl rbind in Hres. destruct k; [now apply p_cases_err in Hres|now apply q_cases_err in Hres].
+      * simpl in Hres. inversion Hres; subst. apply mapM_err in E2. destruct E2 as (c2 & Hc2 & Herr).
+        apply in_map_iff in Hc2. destruct Hc2 as (c1 & <- & Hc1).
+        (* c1 is the result of the first pass on some child c *)
+        assert (Hsrc : exists c st1, In c cs /\ set_contiguous f v c = Ok (c1, st1)).
+        { clear - F1 Hc1. induction F1 as [|c c1' cs cs1 Hc F1 IH1]; [destruct Hc1|].
+          destruct Hc1 as [->|Hc1].
+          - destruct (set_contiguous f v c) as [[c1' st1]|e] eqn:Ec; [|discriminate]. simpl in Hc. inversion Hc; subst.
+            exists c, st1. split; [now left|exact Ec].
+          - destruct (IH1 Hc1) as (c0 & st1 & H0 & H1). exists c0, st1. split; [now right|exact H1]. }
+        destruct Hsrc as (c & st1 & Hc & Hsc). rewrite Forall_forall in Hpc.
+        destruct (set_contiguous_post f v c c1 st1 (Hpc c Hc) Hsc) as (_ & HAl & _ & Hperm & _).
+        apply (IH v (flat_ret c1) e); [now apply AlmostProper_flat| |exact Herr].
+        rewrite ordering_flat_ret, <- (Permutation_length Hperm). now apply Hchild.
+    + simpl in Hres. inversion Hres; subst. apply mapM_err in E1. destruct E1 as (c & Hc & Herr).
+      destruct (set_contiguous f v c) as [r|e'] eqn:Ec; [discriminate|]. simpl in Herr. inversion Herr; subst.
+      rewrite Forall_forall in Hpc. apply (IH v c e); auto.
+Qed.
+
+Theorem pq_reorder_total elems F : (exists res, pq_reorder elems F = Ok res) \/ pq_reorder elems F = Err ValueErr.
+Proof.
+  unfold pq_reorder. destruct (Nat.leb_spec (length F) 2) as [Hl|Hl]; [left; eauto|].
+  assert (Hp : proper (Node KP (map Leaf F)) = true).
+  { apply proper_node_iff. split; [rewrite map_length; lia|]. apply Forall_map, Forall_forall. reflexivity. }
+  assert (Hleaves : ordering (Node KP (map Leaf F)) = F) by (simpl; apply ordering_leaves).
+  assert (Hloop : forall elems t, proper t = true -> length (ordering t) = length F ->
+            match pq_loop (length F) elems t with
+            | Ok t' => length (ordering t') = length F
+            | Err e => e = ValueErr
+            end).
+  { induction elems0 as [|i rest IH]; intros t Hpt Hlt; simpl; [exact Hlt|].
+    destruct t as [s|k cs]; [simpl in Hlt; lia|].
+    destruct (set_contiguous (length F) i (Node k cs)) as [[t' st]|e] eqn:E; simpl.
+    - destruct (set_contiguous_post _ _ _ _ _ Hpt E) as (_ & HAl & _ & Hperm & _).
+      apply IH; [now apply AlmostProper_flat|]. now rewrite ordering_flat_ret, <- (Permutation_length Hperm).
+    - apply (set_contiguous_fuel _ _ _ _ Hpt) in E; [exact E|lia]. }
+  specialize (Hloop elems _ Hp). rewrite Hleaves in Hloop. specialize (Hloop eq_refl).
+  destruct (pq_loop (length F) elems (Node KP (map Leaf F))) as [t|e]; [|right; now subst].
+  destruct t as [s|k cs]; [simpl in Hloop; lia|]. left. eauto.
+Qed.
